@@ -357,7 +357,7 @@ class Concurrent(SubCheck):
                 dqs[0].append(mkv(v))
             return dqs, caches
 
-        calls, sched = run_scheduled(env, case['progs'], case['schedule'], open_clients, do_conc, 'C11', warm=lambda dq: dq.cache._sql)
+        calls, sched = run_scheduled(env, case['progs'], case['schedule'], open_clients, do_conc, 'C11', warm=lambda dq: dq.cache._sql, final_ops=[('len',)] + [('popleft',)] * 8)
         if sched.limit_hit:
             return {'nontrivial': False, 'classes': ['step-limit']}
         mark_interleaved(calls, sched.trace)
